@@ -570,12 +570,20 @@ def work_C05(run, rng, budget):
         m = G.gen_mol(rng, max_n=26, family="rare_elements")
         sizes(run, m)
         one(mol_graph(m), m.family, {"mol": mol_repr(m)})
-    # all 118 elements in one molecule: the blocks of the string must follow the atomic numbers of the periodic table
+    # all 118 elements in one molecule, every atom carrying an isotope label: the index of every attribute block must
+    # lie in the block of that atom's element, blocks ordered by the atomic numbers of the periodic table
     syms = list(G.ELEMENTS)
     rng.shuffle(syms)
-    m = G.decorate(len(syms), G.sk_random(len(syms), 0.02, rng), rng, syms=syms, family="all118")
+    m = G.decorate(len(syms), G.sk_random(len(syms), 0.02, rng), rng, syms=syms, label_p=0.0, family="all118")
+    for i, a in enumerate(m.atoms):
+        a["mass"] = 300 + G.Z[a["sym"]]
     sizes(run, m)
     one(mol_graph(m), m.family, {"mol": mol_repr(m)})
+    # ... and the same molecule as the library's own reader sees it (atomic numbers from the library's table)
+    text, _ = RD.render_v3000(m, rng, {"star": False})
+    g, err = safe(graph_from_molfile_text, text)
+    if err is None:
+        one(g, "reader:all118", {"molfile": text})
     # molecules as the readers produce them, including explicitly written defaults
     for _ in range(40 * budget):
         m = G.gen_mol(rng, max_n=10)
